@@ -25,6 +25,8 @@ func init() {
 			{Name: "concurrent", Weight: 5, Bubble: true, Run: c07Concurrent},
 			{Name: "retry", Weight: 4, Run: c07Retry},
 			{Name: "retry-conn", Weight: 2, Bubble: true, Run: c07RetryConn},
+			{Name: "sweep-retry", Run: c07Sweep, SweepN: c07SweepN, QuickSweep: true, Exhaustive: true,
+				SweepNote: "every sequence of up to 3 outcomes over {accept 0, 1, half, all} x {temporary, permanent, plain error} (then success), x retry budgets 0..3 x {io.Writer, MultistreamWriter}: 15 080 cases"},
 		},
 		MustProbes: []string{"writer-blocked-on-lock", "stall-with-queued-writers", "retry-resumed"},
 	})
@@ -491,14 +493,18 @@ func retryModel(msg []byte, script []outcome, retries int) (attempts [][]byte, t
 func c07Retry(e *Env) {
 	t := e.T
 	size := c07Sizes(t)
+	retries := t.Range(0, 5)
+	want := RefMsg{Cmd: 901, Flags: 0x80, HbH: 77, E2E: 88, AVPs: []RefAVP{{Code: avpSimOctets, Data: marker(0, 0, size, 3)}}}.Bytes()
+	script := drawScript(e, len(want))
+	c07RetryCase(e, size, retries, script, t.Chance(1, 2), uint(t.Draw(16)))
+}
+
+// c07RetryCase runs one retried write against a scripted writer and checks it against the reference model.
+func c07RetryCase(e *Env, size, retries int, script []outcome, multi bool, stream uint) {
 	payload := marker(0, 0, size, 3)
 	m := diam.NewMessage(901, diam.RequestFlag, 0, 77, 88, simDict())
 	m.NewAVP(avpSimOctets, 0, 0, datatype.OctetString(payload))
 	want := RefMsg{Cmd: 901, Flags: 0x80, HbH: 77, E2E: 88, AVPs: []RefAVP{{Code: avpSimOctets, Data: payload}}}.Bytes()
-	retries := t.Range(0, 5)
-	script := drawScript(e, len(want))
-	stream := uint(t.Draw(16))
-	multi := t.Chance(1, 2)
 	e.Act("retry", "len=%d retries=%d script=%v multi=%v", len(want), retries, script, multi)
 	var sw *scriptWriter
 	var n int64
@@ -536,6 +542,30 @@ func c07Retry(e *Env) {
 		e.Probe("retry-resumed")
 		e.NonTrivial()
 	}
+}
+
+// ---- sweep: every outcome sequence up to length 3 x every retry budget 0..3 x both writer kinds
+
+func c07SweepN(thorough bool) int { return seqCount(12, 3) * 4 * 2 }
+
+func c07Sweep(e *Env) {
+	k := e.Case
+	multi := k%2 == 1
+	k /= 2
+	retries := k % 4
+	k /= 4
+	seq := decodeSeq(k, 12)
+	const size = 100
+	msgLen := 20 + 8 + size
+	var script []outcome
+	for _, s := range seq {
+		acc := []int{0, 1, msgLen / 2, msgLen}[s%4]
+		kind := []string{"temp", "perm", "plain"}[s/4]
+		script = append(script, outcome{acc, kind})
+		e.Fault("write-" + kind)
+	}
+	e.NonTrivial()
+	c07RetryCase(e, size, retries, script, multi, 7)
 }
 
 func c07CheckRetry(e *Env, via string, want []byte, script []outcome, retries int, calls [][]byte, accepted []byte, n int64, err error) {
